@@ -163,10 +163,12 @@ func (s *Schema) AddTwoWayRel(rel Rel) error {
 // relationships (two types where each has a relationship pointing to the other
 // type), only one of the two relationships will appear in the list.
 func (s *Schema) Rels() []Rel {
-	s.buildRels()
+	// The set is built in a local map: Rels does not modify the schema, so
+	// that it can be called concurrently with other read operations.
+	set := s.buildRels()
 
-	rels := make([]Rel, 0, len(s.rels))
-	for _, rel := range s.rels {
+	rels := make([]Rel, 0, len(set))
+	for _, rel := range set {
 		rels = append(rels, rel)
 	}
 
@@ -276,8 +278,8 @@ func (s *Schema) Check() []error {
 
 // buildRels builds the set of normalized relationships that is returned by
 // Schema.Rels.
-func (s *Schema) buildRels() {
-	s.rels = map[string]Rel{}
+func (s *Schema) buildRels() map[string]Rel {
+	rels := map[string]Rel{}
 
 	for _, typ := range s.Types {
 		for _, rel := range typ.Rels {
@@ -289,7 +291,9 @@ func (s *Schema) buildRels() {
 			norm := rel.Normalize()
 			relName += " " + strconv.Quote(norm.FromType) + strconv.Quote(norm.FromName)
 
-			s.rels[relName] = rel.Normalize()
+			rels[relName] = rel.Normalize()
 		}
 	}
+
+	return rels
 }
